@@ -825,7 +825,8 @@ KERNELS = [
          ret='List Rat × List (Int × Rat)',
          bind={'chain.ntemps': 'ntemps', 'chain.betas': 'betas', 'numpy.exp(self._S[i - 1])': 'Src.get es (i - 1)'},
          writelogs={'chain.chains[i].beta': ('levelW', 'i')},
-         carried=['betas', 'levelW'], start_at='for i in range(1, chain.ntemps - 1)',
+         carried=['betas', 'levelW'],
+         skip=['iteration = ...', 'ii = ...', 'ars = ...', 'ars[ars > 1] = ...', 'self._S += ...'],
          prelude='let levelW : List (Int × Rat) := []', result='(betas, levelW)'),
     # --- memory management (C06): Chain.clear and the scratch growth requested by Sampler.run
     dict(name='chainClear', file='epsie/chain/chain.py', cls='Chain', func='clear',
